@@ -22,6 +22,16 @@ CLAIMS.update({
                 design="7/C13", technique="Coq proof (potential function) + exact differential correspondence",
                 note=NOTE_TB + " Partial: propositional engine; quantifier nodes are not in the model yet."),
 })
+
+CLAIMS.update({
+    "C06": dict(text="Theorems C06_terminates (infer() returns for every propositional KB, any source/query/max_steps: the reported amount of a pass equals the interval width it removes, total width <= 2|objects|, a non-converged step removes more than the 1e-7 threshold extracted from model.py) and C06_fixpoint_partial (a step that reports exactly zero changed nothing, no single upward/downward step of any traversed formula changes anything, and the step run again reports zero again). Partial (named so): needs the last step to report EXACTLY zero, which `<= 1e-7` implies on grid-closed (unit-weight, dyadic) KBs; propositional engine only.",
+                design="7/C06", technique="Coq proof (potential-function termination + fixpoint lemma) + exact differential correspondence",
+                note=NOTE_TB + " Partial: weighted KBs may converge only asymptotically (D9); first-order/quantified KBs are monitored on the implementation only where the FOL check says so."),
+    "C07": dict(text="Theorems C07_confluent / C07_contradiction_order_free / C07_step_monotone: for every propositional KB, ANY two sequences of public calls under ANY two root orders that end in fixpoints, one of them contradiction-free, end in the same bounds; if some schedule ends in a contradiction-free fixpoint every state reachable by any schedule is contradiction-free and never tighter (monotone primitive steps on contradiction-free states; arresting only fires on contradictory states).",
+                design="7/C07", technique="Coq proof (monotonicity + confluence over arbitrary schedules) + exact differential correspondence"),
+    "C20": dict(text="Theorems C20_frame / C20_node_frame (source-restricted inference and node calls write only descendants of the source, for every KB, direction, max_steps, query), C20_verdict_final (a point verdict survives every further inference on data with a consistent reading), C20_restricted_sound and C20_restricted_below_full (the restricted run is never tighter than a contradiction-free fixpoint of the full run).",
+                design="7/C20", technique="Coq proof (frame rule over DFS descendants + monotone tightening) + exact differential correspondence"),
+})
 NA_REASON = "check not built yet in this round (planned: see DESIGN.md section 7); not claimed"
 checks, na = [], []
 for p in props:
